@@ -25,8 +25,14 @@ from ..harness import h64
 ID = "C13"
 LEVEL = "fault_enumeration"
 
+class SignalAbort(BaseException):
+    """A BaseException that is neither KeyboardInterrupt nor an Exception (what a signal handler may raise)."""
+
+
 EXC = {
     "KeyboardInterrupt": KeyboardInterrupt,
+    "SystemExit": lambda: SystemExit(1),
+    "SignalAbort": SignalAbort,
     "OSError": lambda: OSError(5, "Input/output error"),
     "termios.error": lambda: _termios.error(13, "Permission denied"),
     "BrokenPipeError": lambda: BrokenPipeError(32, "Broken pipe"),
@@ -331,7 +337,8 @@ def build_cases(tier):
                  "raw-noecho-vmin0-vtime0", "raw-echo-vmin0-vtime0"]
     if not quick:
         attr_sets += ["raw-noecho-vmin3-vtime2", "canon-echo-vmin0"]
-    excs = ["KeyboardInterrupt", "OSError"] if quick else ["KeyboardInterrupt", "OSError", "termios.error"]
+    base_excs = ["KeyboardInterrupt", "SystemExit", "SignalAbort"]      # BaseExceptions of three different families
+    excs = base_excs + (["OSError"] if quick else ["OSError", "termios.error"])
     sb = 2 if quick else 99         # schedule deviation bound for operations with one pending reply / keystrokes
     mb = 1 if quick else 99         # ... for the getters with several replies in flight (99 = the whole tree)
     for at in attr_sets:
@@ -368,7 +375,7 @@ def build_cases(tier):
             for hc in (True, False):
                 for cls in (("TextR",) if quick else ("TextR", "ClearR")):
                     add(dict(op="draw", attrs=at, frames=frames, hide_cursor=hc, cls=cls, excs=excs,
-                             out_excs=["KeyboardInterrupt"] if quick else ["KeyboardInterrupt", "BrokenPipeError"]))
+                             out_excs=base_excs if quick else base_excs + ["BrokenPipeError"]))
     return cases
 
 
@@ -422,7 +429,8 @@ def run(ctx):
                     "read_tty_all", "get_cell_size (16t / 14t fallback)", "get_fg_bg_colors", "get_terminal_name_version",
                     "KittyImage.is_supported", "Renderable.draw(echo_input=False) static/animated x hide_cursor"],
         fault_modes=["instead", "after"],
-        exceptions=["KeyboardInterrupt", "OSError"] if quick else ["KeyboardInterrupt", "OSError", "termios.error", "BrokenPipeError (stdout)"],
+        exceptions=["KeyboardInterrupt", "SystemExit", "SignalAbort(BaseException)", "OSError"] if quick else
+        ["KeyboardInterrupt", "SystemExit", "SignalAbort(BaseException)", "OSError", "termios.error", "BrokenPipeError (stdout)"],
         schedule_deviation_bound=dict(single_reply_ops=2 if quick else 'whole tree', multi_reply_getters=1 if quick else 'whole tree',
                                       kitty_is_supported=0 if quick else 2))
     ctx.assumptions += [
